@@ -210,6 +210,8 @@ class Builder:
                 cd = obj.get(name)
                 if cd is None:
                     kw[name] = None
+                elif "__impostor__" in cd:
+                    kw[name] = type(cd["__impostor__"], (), {"__module__": cls.__module__})()
                 else:
                     sw = ins
                     case = next(c for c in sw["cases"] if spec.case_class_name(sw, c) == cd["__case__"])
